@@ -15,7 +15,7 @@ import simrun
 from common import q_of_float
 
 HEADER = """From Coq Require Import QArith List Bool Arith.
-From WNTRV Require Import C09.Model.
+From WNTRV Require Import C09.Model C09.Graph.
 Import ListNotations.
 Definition iso_ok links nodes sources juncs (implJ implL : list nat) : bool :=
   match isolated_model links nodes sources juncs with
@@ -27,6 +27,53 @@ Definition zero_ok links nodes sources juncs dem pres flow : bool :=
   | None => false end.
 """
 TACTIC = "vm_compute; reflexivity"
+
+
+class GraphTrace:
+    """records what _initialize_internal_graph / _update_internal_graph of the real simulator leave in the CSR data array
+    (read through the simulator's own link -> data index map), the change tracker's report each update consumed, and the
+    open/closed flags of the links at that moment"""
+
+    def __init__(self, wntr, link_names):
+        self.wntr, self.link_names = wntr, link_names
+        self.init = None
+        self.updates = []
+        self.asym = 0
+
+    def _entries(self, sim, wn):
+        data = sim._internal_graph.data
+        out = []
+        for l in self.link_names:
+            n1, n2 = sim._map_link_to_internal_graph_data_ndx[wn.get_link(l)]
+            if int(data[n1]) != int(data[n2]):
+                self.asym += 1
+            out.append(int(data[n1]))
+        return out
+
+    def _flags(self, wn):
+        C = self.wntr.network.LinkStatus.Closed
+        return [wn.get_link(l).status != C for l in self.link_names]
+
+    def __enter__(self):
+        S = self.wntr.sim.core.WNTRSimulator
+        self.o_init, self.o_upd = S._initialize_internal_graph, S._update_internal_graph
+        me = self
+        idx = {n: i for i, n in enumerate(self.link_names)}
+
+        def w_init(sim):
+            me.o_init(sim)
+            me.init = (me._flags(sim._wn), me._entries(sim, sim._wn))
+
+        def w_upd(sim):
+            ch = [idx[o.name] for o, a in sim._change_tracker.get_changes(ref_point='graph') if a == 'status' and o.name in idx]
+            me.o_upd(sim)
+            me.updates.append((ch, me._flags(sim._wn), me._entries(sim, sim._wn)))
+        S._initialize_internal_graph, S._update_internal_graph = w_init, w_upd
+        return self
+
+    def __exit__(self, *a):
+        S = self.wntr.sim.core.WNTRSimulator
+        S._initialize_internal_graph, S._update_internal_graph = self.o_init, self.o_upd
 
 
 def more_cuts(rng, spec):
@@ -55,9 +102,10 @@ def check(run, replay=None):
                 "(network, time, status vector)")
     run.trusted += ["tracing wrapper around store_results_in_network (reads link.status and the _is_isolated flags)",
                     "freshly compiled _network_isolation extension"]
-    run.assumptions += ["the CSR matrix and its incremental maintenance are not modelled separately: the tie compares the flags the real "
-                        "code derives from them with the model's from-scratch reachability at every solve of every history"]
-    ok, log, fails = common.coq_make(["theories/C09/Proofs.vo"])
+    run.assumptions += ["every change of a link status between two matrix updates is made by a control action observed by the change "
+                        "tracker (the theorem's hypothesis; checked per traced update by tracker_complete)",
+                        "self-loop links are not generated (for a pair (u, u) the code collects every link at u)"]
+    ok, log, fails = common.coq_make(["theories/C09/Proofs.vo", "theories/C09/GraphProofs.vo"])
     if not ok:
         for f, ln, msg in fails:
             run.tie_broken("proof no longer checks: %s line %s: %s" % (f, ln, common.theorem_line(f, ln)), msg)
@@ -98,8 +146,28 @@ def check(run, replay=None):
             snap = (int(wn_.sim_time), tuple(st), tuple(ij), tuple(il))
             snaps[int(wn_.sim_time)] = snap
             allsnaps.append(snap)
-        with simrun.Trace(wntr, cb):
+        with simrun.Trace(wntr, cb), GraphTrace(wntr, link_names) as gt:
             res, err, warns, sim = simrun.run(wntr, wn)
+        if gt.init is not None:
+            # the matrix bookkeeping is tied whatever became of the run (it precedes every solve)
+            def nl(xs):
+                return "[" + "; ".join("%d%%nat" % x for x in xs) + "]"
+
+            def bl(xs):
+                return "[" + "; ".join("true" if x else "false" for x in xs) + "]"
+            lk0 = "[" + "; ".join("(%d%%nat, %d%%nat, %s)" % (nidx[wn.get_link(l).start_node_name], nidx[wn.get_link(l).end_node_name],
+                                                              "true" if o else "false") for l, o in zip(link_names, gt.init[0])) + "]"
+            ups = gt.updates[:400]
+            hist = "[" + "; ".join("(%s, %s, %s)" % (nl(c), bl(f), nl(e)) for c, f, e in ups) + "]"
+            add_case("graph_ok %s %s %s = true" % (lk0, nl(gt.init[1]), hist),
+                     {"check": "connectivity matrix", "spec": spec, "links": link_names, "initial_open": gt.init[0], "initial_entries": gt.init[1],
+                      "updates": [{"tracker_changed": [link_names[i] for i in c], "open": f, "entries": e} for c, f, e in ups[:50]]})
+            nflip = sum(1 for c, f, e in ups if c)
+            run.case({"net": k, "graph": True}, nflip > 0, None)
+            run.count("matrix_updates", len(ups))
+            run.count("matrix_updates_with_status_changes", nflip)
+            if gt.asym:
+                run.violation("connectivity_matrix_not_symmetric", "C09: the two entries of a link in the internal graph differ", input={"spec": spec})
         if res is None:
             continue
         done += 1
@@ -143,7 +211,8 @@ def check(run, replay=None):
             run.discharged += 1
         elif cid in res_:
             m = meta[cid]
-            run.violation("isolation_flags_differ_from_reachability" if m["check"] == "isolated flags" else "isolated_elements_not_zero",
+            run.violation("isolation_flags_differ_from_reachability" if m["check"] == "isolated flags" else
+                          "connectivity_matrix_differs_from_model" if m["check"] == "connectivity matrix" else "isolated_elements_not_zero",
                           "C09: " + m["check"] + " disagree with the model (junction cut off <-> no path of non-closed links to a source)",
                           input=m)
     run.extra["networks_simulated"] = done
